@@ -213,6 +213,9 @@ def avgr_int(ty, a, b):
         alts.append(P('pavg', T.raw_op('x86.pavg', w, a, b)))
         an, xo = _floor_avg(a, b)
         alts.append(I('floor-avg + ((x^y)&1)', T.add(T.add(an, T.lshr_c(xo, 1)), T.and_(xo, K(ty, 1)))))
+        # Hacker's Delight 2-5, ceiling average without overflow: (x|y) - ((x^y)>>1) = ceil((x+y)/2) for unsigned x, y
+        # (x+y = 2(x|y) - (x^y)).  Added after seeded change C17-7, which is behaviour-preserving for unsigned types.
+        alts.append(I('(x|y)-((x^y)>>1)', T.sub(T.or_(a, b), T.lshr_c(xo, 1))))
         return alts
     base = avg_int(ty, a, b)[0][2]
     xo = T.xor(a, b)
